@@ -20,6 +20,9 @@ type aggregatedLabels struct {
 	by      map[string]struct{}
 }
 
+// keySeparator separates names and values in grouping key, 0xff is not valid in UTF-8 strings.
+var keySeparator = []byte{0xff}
+
 type labelEntry struct {
 	name  string
 	value string
@@ -79,8 +82,11 @@ func (a *aggregatedLabels) Without(labels ...logql.Label) logqlmetric.Aggregated
 func (a *aggregatedLabels) Key() logqlmetric.GroupingKey {
 	h := xxhash.New()
 	a.forEach(func(k, v string) {
+		// Separate name and value, so {a="bc"} and {ab="c"} have different keys.
 		_, _ = h.WriteString(k)
+		_, _ = h.Write(keySeparator)
 		_, _ = h.WriteString(v)
+		_, _ = h.Write(keySeparator)
 	})
 	return h.Sum64()
 }
